@@ -6,6 +6,7 @@ import (
 	"testing"
 
 	"github.com/alttpo/snes/emulator/bus"
+	"github.com/alttpo/snes/emulator/memory"
 	"pgregory.net/rapid"
 
 	"verif/harness/rig"
@@ -14,7 +15,7 @@ import (
 // C13 — bus routing follows Attach exactly and EaDump agrees with byte-wise reads.
 
 type c13Op struct {
-	Kind  string `json:"kind"` // attach, misattach, read, write, dump
+	Kind  string `json:"kind"` // attach, misattach, read, write, dump, read24 (three bytes, wrapping inside the bank)
 	Mem   int    `json:"mem,omitempty"`
 	Start uint32 `json:"start"`
 	End   uint32 `json:"end,omitempty"`
@@ -176,6 +177,46 @@ func c13Check(c c13Case) error {
 			if err := expectOnly(what, own, []rig.Access{{Addr: op.Start, Val: op.Val, Write: true}}); err != nil {
 				return err
 			}
+		case "read24":
+			bank, off := op.Start>>16, uint16(op.Start)
+			var want uint32
+			var wantAcc [4][]rig.Access
+			allOwned := true
+			for j := uint16(0); j < 3; j++ {
+				a := bank<<16 | uint32(off+j)
+				own, ok := owner.get(a >> 4)
+				if !ok {
+					allOwned = false
+					break
+				}
+				v := stubs[own].peek(a)
+				want |= uint32(v) << (8 * j)
+				wantAcc[own] = append(wantAcc[own], rig.Access{Addr: a, Val: v})
+			}
+			var got uint32
+			pe := rig.Safe(func() error { got = b.EaRead24_wrap(byte(bank), off); return nil })
+			if !allOwned {
+				if pe == nil {
+					return fmt.Errorf("%s: EaRead24_wrap($%02X,$%04X) returned $%06X although one of its three bytes is not attached", what, bank, off, got)
+				}
+				break
+			}
+			if pe != nil {
+				return fmt.Errorf("%s: EaRead24_wrap($%02X,$%04X) failed (%v) although all three bytes are attached", what, bank, off, pe)
+			}
+			if got != want {
+				return fmt.Errorf("%s: EaRead24_wrap($%02X,$%04X) = $%06X, three single reads (wrapping inside the bank) give $%06X", what, bank, off, got, want)
+			}
+			for si, st := range stubs {
+				if len(st.log) != len(wantAcc[si]) {
+					return fmt.Errorf("%s: EaRead24_wrap($%02X,$%04X): memory #%d saw %+v, want %+v", what, bank, off, si, st.log, wantAcc[si])
+				}
+				for j := range st.log {
+					if st.log[j] != wantAcc[si][j] {
+						return fmt.Errorf("%s: EaRead24_wrap($%02X,$%04X): memory #%d saw %+v, want %+v (each byte goes to its own owner with the full address)", what, bank, off, si, st.log[j], wantAcc[si][j])
+					}
+				}
+			}
 		case "dump":
 			n := int(op.End-op.Start) + 1
 			const sentinel, canary = 0xA5, 0x5A
@@ -287,6 +328,12 @@ func c13Gen(t *rapid.T) c13Case {
 				e -= uint32(rapid.IntRange(1, 15).Draw(t, "mis"))
 			}
 			c.Ops = append(c.Ops, c13Op{Kind: "misattach", Mem: rapid.IntRange(0, 3).Draw(t, "mem"), Start: s, End: e})
+		case k == 5 && rapid.Bool().Draw(t, "r24"):
+			a := addr("a")
+			if rapid.IntRange(0, 3).Draw(t, "r24-edge") == 0 {
+				a = a&^0xf | uint32(rapid.IntRange(13, 15).Draw(t, "r24-low")) // the three bytes straddle two blocks
+			}
+			c.Ops = append(c.Ops, c13Op{Kind: "read24", Start: a})
 		case k <= 6:
 			c.Ops = append(c.Ops, c13Op{Kind: "read", Start: addr("a")})
 		case k <= 8:
@@ -304,11 +351,68 @@ func c13Gen(t *rapid.T) c13Case {
 	return c
 }
 
+// c13RealMem: the library's own memory.RAM / *memory.ROM objects (attached with non-zero offsets, side by side)
+// dumped at every alignment across their boundary must agree with byte-wise reads.
+type c13RealCase struct {
+	Start uint32 `json:"start"`
+	Len   int    `json:"len"`
+}
+
+func c13RealCheck(c c13RealCase) error {
+	b, _ := bus.New()
+	romData, ramData := make([]byte, 0x100), make([]byte, 0x100)
+	for i := range romData {
+		romData[i] = byte(0x80 | i&0x7f)
+		ramData[i] = byte(i & 0x7f)
+	}
+	if err := b.Attach(memory.NewROM(romData, 0x7F00), "rom", 0x7F00, 0x7FFF); err != nil {
+		return err
+	}
+	if err := b.Attach(memory.NewRAM(ramData, 0x8000), "ram", 0x8000, 0x80FF); err != nil {
+		return err
+	}
+	end := c.Start + uint32(c.Len) - 1
+	buf := make([]byte, c.Len+4)
+	for i := range buf {
+		buf[i] = 0xA5
+	}
+	var n int
+	if pe := rig.Safe(func() error { n = b.EaDump(c.Start, end, buf); return nil }); pe != nil {
+		return fmt.Errorf("EaDump($%06X,$%06X) over memory.ROM/memory.RAM objects failed: %v", c.Start, end, pe)
+	}
+	if n != c.Len {
+		return fmt.Errorf("EaDump($%06X,$%06X) returned %d, want %d", c.Start, end, n, c.Len)
+	}
+	for i := 0; i < c.Len; i++ {
+		a := c.Start + uint32(i)
+		want := byte(0xA5)
+		if a >= 0x7F00 && a <= 0x80FF {
+			want = b.EaRead(a)
+		}
+		if buf[i] != want {
+			return fmt.Errorf("EaDump($%06X,$%06X) position %d (address $%06X) holds %02x, a single read gives %02x (memory.ROM at $7F00, memory.RAM at $8000)", c.Start, end, i, a, buf[i], want)
+		}
+	}
+	for i := c.Len; i < len(buf); i++ {
+		if buf[i] != 0xA5 {
+			return fmt.Errorf("EaDump wrote past the range")
+		}
+	}
+	return nil
+}
+
 func init() {
 	rig.RegisterReplay("C13", func(data []byte) error {
 		var rf rig.ReplayFile
 		if err := json.Unmarshal(data, &rf); err != nil {
 			return err
+		}
+		if rf.Kind == "realmem" {
+			var rc c13RealCase
+			if err := json.Unmarshal(rf.Case, &rc); err != nil {
+				return err
+			}
+			return c13RealCheck(rc)
 		}
 		var c c13Case
 		if err := json.Unmarshal(rf.Case, &c); err != nil {
@@ -324,6 +428,21 @@ func TestC13(t *testing.T) {
 		"model = owner per 16-byte block.  Non-trivial = the history contains an Attach followed by a read, write or dump of an attached address; distinct = hash(ops).",
 		func(r *rig.Run) {
 			ev := r.Ev
+			if rig.Shard() == 0 {
+				n := 0
+				for start := uint32(0x7EE0); start <= 0x8110; start++ {
+					if !(start <= 0x7F10 || (start >= 0x7FD8 && start <= 0x8018) || start >= 0x80F0) {
+						continue
+					}
+					for _, ln := range []int{1, 16, 17, 40} {
+						rc := c13RealCase{start, ln}
+						r.CheckSweep("realmem", rc, func() error { return c13RealCheck(rc) })
+						ev.Case(true, rig.Hash64("real", start, ln), nil)
+						n++
+					}
+				}
+				ev.ClassN("dumps-over-memory.ROM/memory.RAM-objects", int64(n))
+			}
 			r.Rapid("rapid", rig.Pick(3000, 12000), func(t *rapid.T) {
 				c := c13Gen(t)
 				r.Check(t, "rapid", c, func() error { return c13Check(c) })
@@ -341,6 +460,11 @@ func TestC13(t *testing.T) {
 							}
 						}
 						owner.add(op.Start>>4, op.End>>4, 0)
+					case "read24":
+						if has(op.Start >> 4) {
+							nontriv = true
+						}
+						ev.Class("read24")
 					case "read", "write":
 						if has(op.Start >> 4) {
 							nontriv = true
